@@ -1242,6 +1242,9 @@ impl Opcode for SelfDestruct {
         // we would lose info
         vm.state()?.record_value(destroy);
 
+        // Execution on this path halts after the account is registered for deletion
+        vm.kill_current_thread();
+
         // Done, so return ok
         Ok(())
     }
